@@ -235,7 +235,7 @@ func toInt32(value Value) int32 {
 	}
 
 	// Convert to int64 before int32 to force correct wrapping.
-	return int32(int64(floatValue))
+	return int32(int64(math.Mod(floatValue, 4294967296)))
 }
 
 func toUint32(value Value) uint32 {
@@ -258,7 +258,7 @@ func toUint32(value Value) uint32 {
 	}
 
 	// Convert to int64 before uint32 to force correct wrapping.
-	return uint32(int64(floatValue))
+	return uint32(int64(math.Mod(floatValue, 4294967296)))
 }
 
 // ECMA 262 - 6.0 - 7.1.8.
@@ -278,7 +278,7 @@ func toUint16(value Value) uint16 {
 	}
 
 	// Convert to int64 before uint16 to force correct wrapping.
-	return uint16(int64(floatValue))
+	return uint16(int64(math.Mod(floatValue, 4294967296)))
 }
 
 // toIntSign returns sign of a number converted to -1, 0 ,1.
